@@ -30,6 +30,15 @@ def run(chk):
         pieces = ["{", "}", "{{", "}}", "1", "2", "-1", ":", ",", "=x", "a", "\\n", "\\t", " ", "é", "0", "+3", "2147483647", "2147483648",
                   "-2147483648", "-2147483649", "3:1", "-3:2", "{1}", "{2:3}", "{1,2}", "{:2=f}", "Ż", "Ž", "ĺ", "Ľ", "ı", "=n=a", "46341", "65536", "-65536", "100000"]
         strs.append("".join(rng.choice(pieces) for _ in range(rng.randint(1, 6)))[:k + 8])
+    # every pair of EDGE numbers on the two sides of a range (sign tests, `right < left`, products and negations of sides are where the width of
+    # i32 shows: 46341² and 65536² leave the range, -(-2^31) does not exist), plain, with a fallback, inside braces
+    EDGE = [1, -1, 2, -2, 3, 46340, 46341, -46341, 65536, -65536, 2147483646, 2147483647, -2147483647, -2147483648, 0, 2147483648, -2147483649]
+    for a in EDGE:
+        for t in (f"{a}", f"{a}:", f":{a}"):
+            strs += [t, t + "=x", "{" + t + "}"]
+        for b in EDGE:
+            t = f"{a}:{b}"
+            strs += [t, t + "=x", "a{" + t + "=y}b", "1," + t]
     cases = [{"kind": "parse", "s": s} for s in strs]
     lines = [case_line(c) for c in cases]
     from common import run_impl, run_model, cmp_model
